@@ -73,11 +73,13 @@ func TestSchedules(t *testing.T) {
 		out.Flush()
 		// watchdog (real time, outside the bubble): a schedule on which the library never comes to rest - a goroutine
 		// spinning - would block synctest.Wait for ever; the schedule is reported as hung and the process restarts after it
-		wd := time.AfterFunc(time.Duration(vio.EnvInt("VERIF_HANG_S", 60))*time.Second, func() {
+		hung := func() {
 			out.Put(map[string]any{"hang": s.ID, "line": n - 1})
 			out.Flush()
 			os.Exit(3)
-		})
+		}
+		wd := time.AfterFunc(time.Duration(vio.EnvInt("VERIF_HANG_S", 60))*time.Second, hung)
+		Runaway = hung
 		tr := Run(t, s)
 		wd.Stop()
 		out.Put(tr)
